@@ -1,65 +1,125 @@
 from vlib import Job
 
 META = dict(
-    bounds='TODO',
-    outside='TODO',
-    assumptions=['TODO'],
+    bounds='SINGLE-READER DATA PATH ONLY.  Source file of symbolic size 1..S (S = 8 or 12: two or three pages, aligned or not) with symbolic content; page_size_ = 4, refill unit 4 '
+           '(thorough: also 8); media = byte array + per-page "present" bitmap, initially any subset of pages present with media == source there, or (symbolic choice) an empty media file '
+           'whose size is not yet known to the store (actual_size_ = 0, fetched through the source\'s fstat); one read (thorough: two reads in sequence) at symbolic offset 0..S+1 with '
+           '1, 2 (thorough: 3) segments of symbolic length 0..4 (quick two-segment job: 0..2) in exact-end static buffers; prefetch(count 0..S+2, offset 0..S+1) -> try_refill_range; '
+           'fault jobs: every source preadv2 / media read / media write may fail (-1) or be short, the hole query, the refill-buffer allocator and the source fstat may fail (all symbolic choices). '
+           'Hole-query lemmas: the harness store\'s query over the bitmap and over the real RangeModule (state = any subset of 3 pages), and RangeModule alone: 2 (thorough 3) symbolic '
+           'addRange calls (+ one removeRange in thorough) with offsets <= 31 (15), symbolic request, symbolic witness byte',
+    outside='NOT ENCODED (the property statement is wider than this check): concurrent readers / refills of the same or overlapping ranges (RangeLock conflicts, -EAGAIN retry, cv wake-up), '
+            'the thread pool and asynchronous refill (async_refill, m_refilling, m_refilling_threshold, pin_wbuf/unpin_wbuf), eviction by quota / capacity / forceRecycle / on request while a '
+            'file is open and read, LRU, re-use of the cache directory by a new pool, the real file systems (fiemap, fallocate, ftruncate, lseek SEEK_DATA/SEEK_HOLE) and FileCacheStore / '
+            'FileCachePool / CachedFs themselves, write-back and write-through modes (O_WRITE_BACK, RW_V2_WRITE_BACK, pwritev2), RW_V2_CACHE_ONLY / O_CACHE_ONLY reads, a source that changes '
+            'size, more than 3 pages / 3 segments / 4 bytes per segment, refill units other than 4 and 8 bytes (the shipped pool uses multiples of 4096).',
+    assumptions=[
+        'pool_ == nullptr (refills run inline), src_fs_ == nullptr with src_file_ set (open_src_file returns at once), open_flags_ == 0, flags == 0: checked at set-up',
+        'harness store (subclass of ICacheStore): queryRefillRange = outer hull of the missing pages that intersect the request, aligned to the refill unit (or the real RangeModule + the '
+        'alignment arithmetic of FileCacheStore::queryRefillRangeByMap); do_preadv2 / do_pwritev2 move bytes between the request\'s buffers and the media array, a write marks the pages it '
+        'covers completely (up to end of file) present; evict clears the pages it touches; set_quota / stat unused',
+        'source file (IFile): preadv2 copies from the source array, fstat reports the size; every other IFile method counts as unexpected (checked 0)',
+        'IOAlloc given to the store: hands out the refill buffer in one piece that ends at the end of a static 12-byte array (overrun = out of bounds, bytes in front are guard bytes, checked), '
+        'arbitrary initial content, one live block at a time (checked); ::malloc / ::free (default IOAlloc of the `input` IOVector, used by IOVector::slice) -> a typed static iovec array',
+        'IOVector is instantiated as IOVectorEntity<4, 0> instead of <32, 4> (same class template, same code; at most 3 entries are ever used - IOVectorEntity(iov, iovcnt) asserts '
+        'iovcnt + reserve < capacity); thorough job read_1seg_cap32 runs the shipped <32, 4>',
+        'photon::mutex::lock/unlock (open_lock_) sequential no-ops; condition_variable::wait / waitq::resume_all (RangeLock) sequential no-ops (rt/sync_seq.c); photon::spinlock is the real one; '
+        'thread_create_ex, thread_migrate, ICachePool::store_release, ICacheStore::async_refill report being reached (pool path)',
+        'std::set out-of-line helpers: rt/c17_rbtree.c = unbalanced-BST stand-ins of rt/rbtree.c, plus empty/one-element fast paths for the RangeLock set that CHECK that the set holds at most '
+        'one element (a single reader holds one refill range at a time)',
+        'symbolic-length memcpy (rt/c17_stubs.c verif_c17_memcpy_n): iovec arrays copied element-wise, payload copies (<= 12 bytes) CHECKed to run between two buffers of the request',
+        'kept out of the translation, each with a body that reports being reached: IStream::readv_mutable/writev_mutable, the ICacheStore defaults do_preadv2_mutable / do_pwritev2 / '
+        'do_pwritev2_mutable (mutually forwarding; a concrete store overrides them), destructors of the harness objects',
+        'loop bounds that encode single-reader facts, each checked by an unwinding assertion: `goto again` retry loops of preadv2 / try_refill_range never taken, iovector::push_back_more never '
+        'iterates (the allocator returns the whole block), RangeLock set loops run at most 2 rounds',
+        'memory-safety checks of CBMC are enabled only in the *_memchecks job (they multiply the formula); every other job relies on the explicit range CHECKs in the harness',
+        'compiled with -fno-builtin-memset (member-wise zero-initialisation stays as stores); logging macros have empty bodies; NDEBUG build: assert() compiled out (as shipped)',
+    ],
 )
 SRC = 'C17/h_store.cpp'
 SH = ['libc.c', 'c17_rbtree.c', 'sync_seq.c', 'c17_stubs.c']
 # ir2c: ::malloc / ::free of the default IOAlloc -> harness stand-ins; symbolic-length memcpy -> rt/c17_stubs.c; methods that are not on
 # the single-reader inline-refill path stay out of the translation (rt/c17_stubs.c gives each a body that reports being reached)
-IR2C = ['--no-devirt', '--map', '^@malloc$=verif_c17_malloc', '--map', '^@free$=verif_c17_free', '--memcpy-n', 'verif_c17_memcpy_n',
+IR2C = ['--map', '^@malloc$=verif_c17_malloc', '--map', '^@free$=verif_c17_free', '--memcpy-n', 'verif_c17_memcpy_n',
         '--stub', '^@_ZN7IStream(13readv_mutable|14writev_mutable)E',
         '--stub', '^@_ZN6photon2fs11ICacheStore(18do_preadv2_mutable|11do_pwritev2|19do_pwritev2_mutable)E',
         '--stub', '^@_ZN6photon2fs11ICacheStore12async_refillEPv$', '--stub', '^@_ZN(6photon2fs11ICacheStore|5Store|7SrcFile)D[02]Ev$']
+# MEDIA_VIA_MUTABLE: the real ICacheStore::do_preadv2 is used and forwards to the harness's do_preadv2_mutable
+IR2C_VIA_MUTABLE = IR2C      # same set: the default do_preadv2_mutable (forwards back to do_preadv2) is unused in both modes
 CLANG = ['-fno-builtin-memset']       # keep member-wise zero-initialisation as stores (a memset over a member block is modelled byte-wise by the solver)
-
-
-def us(cap, res, srcmax, extra=()):
-    """per-loop bounds: harness loops run over the source size; the loops of the code under test get the default (segments + 2).
-    push_back_more: c17_alloc hands out the whole refill buffer in one piece, the loop body is never entered;
-    preadv2 / try_refill_range `goto again` (retry after -EAGAIN): never taken by a single reader (no lock conflict, size unchanged).
-    Each of these bounds is checked by an unwinding assertion."""
-    n = srcmax + 1
-    L = ['f__ZN8iovector14push_back_moreEm.0:1', 'verif_c17_memcpy_n.0:13', 'c17_base_of.0:9',
-         'f__ZN6photon2fs11ICacheStore7preadv2EPK5iovecili.4:1', 'f__ZN6photon2fs11ICacheStore16try_refill_rangeElm.1:1']
-    for f in ('f__ZL8src_readPK5iovecil', 'f__ZL10media_readPK5iovecil', 'f__ZL11media_writePK5iovecil', 'f__ZL9c17_allocPvN7IOAlloc9RangeSizeEPS_',
-              'f__ZL10world_initv', 'f__ZL21check_media_invariantv', 'f__ZL19refill_guard_intactv', 'f_harness_read', 'f_harness_prefetch'):
-        L += ['%s.%d:%d' % (f, i, n) for i in range(16 if f.startswith('f_harness') else 8)]
-    # the RangeLock set holds at most one element: its search / iteration loops need 2 rounds
-    L += ['%s.%d:2' % (f, i) for f in ('f__ZN9RangeLock13try_lock_waitERmS0_', 'f__ZN9RangeLock6unlockEmm', 'inc', 'dec',
-          'f__ZNSt8_Rb_treeIN9RangeLock5RangeES1_St9_IdentityIS1_ESt4lessIS1_ESaIS1_EE29_M_get_insert_hint_unique_posESt23_Rb_tree_const_iteratorIS1_ERKS1_') for i in range(4)]
-    return L + list(extra)
-
-
 # memory-safety checks of the standard set (vlib CBMC_BASE) for the jobs that run them
 CHECKS = ['--pointer-overflow-check', '--undefined-shift-check', '--bounds-check', '--pointer-check', '--div-by-zero-check', '--pointer-primitive-check']
 
 
+def us(cap, res, srcmax, niov=1, extra=()):
+    """per-loop bounds: harness loops run over the source size; the loops of the code under test get the default (segments + 2).
+    push_back_more: c17_alloc hands out the whole refill buffer in one piece, the loop body is never entered;
+    preadv2 / try_refill_range `goto again` (retry after -EAGAIN): never taken by a single reader (no lock conflict, size unchanged).
+    Each of these bounds is checked by an unwinding assertion."""
+    n = max(srcmax, 4 * niov) + 1
+    L = ['f__ZN8iovector14push_back_moreEm.0:1', 'verif_c17_memcpy_n.0:13', 'c17_base_of.0:9',
+         'f__ZN6photon2fs11ICacheStore7preadv2EPK5iovecili.4:1', 'f__ZN6photon2fs11ICacheStore16try_refill_rangeElm.1:1']
+    for f in ('f__ZL8src_readPK5iovecil', 'f__ZL10media_readPK5iovecil', 'f__ZL11media_writePK5iovecil', 'f__ZL9c17_allocPvN7IOAlloc9RangeSizeEPS_',
+              'f__ZL10world_initv', 'f__ZL21check_media_invariantv', 'f__ZL19refill_guard_intactv', 'f_harness_read', 'f_harness_prefetch', 'f_harness_holequery'):
+        L += ['%s.%d:%d' % (f, i, n) for i in range(16 if f.startswith('f_harness') else 8)]
+    # the RangeLock set holds at most one element: its search / iteration loops need 2 rounds
+    L += ['%s.%d:2' % (f, i) for f in ('f__ZN9RangeLock13try_lock_waitERmS0_', 'f__ZN9RangeLock6unlockEmm',
+          'f__ZNSt8_Rb_treeIN9RangeLock5RangeES1_St9_IdentityIS1_ESt4lessIS1_ESaIS1_EE29_M_get_insert_hint_unique_posESt23_Rb_tree_const_iteratorIS1_ERKS1_') for i in range(4)]
+    return L + list(extra)
+
+
 def rjob(name, niov=1, srcmax=8, faults=0, nreads=1, runit=4, known=None, cap=(4, 0), rm=False, via_mutable=False, memchecks=False,
-         entry='harness_read', timeout=900, mem_gb=8, desc=''):
-    D = ['NIOV=%d' % niov, 'SRCMAX=%d' % srcmax, 'FAULTS=%d' % faults, 'NREADS=%d' % nreads, 'RUNIT=%d' % runit]
+         entry='harness_read', timeout=900, mem_gb=8, desc='', offs=None, segmax=4):
+    D = ['SEGMAX=%d' % segmax, 'NIOV=%d' % niov, 'SRCMAX=%d' % srcmax, 'FAULTS=%d' % faults, 'NREADS=%d' % nreads, 'RUNIT=%d' % runit]
     if cap != (32, 4): D += ['IOV_CAPACITY=%d' % cap[0], 'IOV_RESERVE=%d' % cap[1]]
     if known is not None: D.append('KNOWN=%d' % known)
     if rm: D.append('USE_RANGE_MODULE')
     if via_mutable: D.append('MEDIA_VIA_MUTABLE')
-    b = 'source size 1..%d, page 4, refill unit %d, %d read(s) of %d segment(s) x 0..4 bytes at offset 0..%d, %s, IOVector capacity %d%s' % (
-        srcmax, runit, nreads, niov, srcmax + 1, 'symbolic faults' if faults else 'no faults', cap[0], ', memory-safety checks' if memchecks else '')
-    return Job(name, SRC, entry, defines=D, unwind=max(niov, 2) + 2, unwindset=us(cap[0], cap[1], srcmax), shims=SH, ir2c=IR2C, clang=CLANG,
+    if offs: D += ['OFFMIN=%d' % offs[0], 'OFFMAX=%d' % offs[1]]
+    b = 'source size 1..%d, page 4, refill unit %d, %d read(s) of %d segment(s) x 0..%d bytes at offset %d..%d, %s, IOVector capacity %d%s%s' % (
+        srcmax, runit, nreads, niov, segmax, offs[0] if offs else 0, offs[1] if offs else srcmax + 1, 'symbolic faults' if faults else 'no faults', cap[0],
+        ', real RangeModule behind the hole query' if rm else '', ', CBMC memory-safety checks on' if memchecks else '')
+    extra = ['inc.0:4', 'inc.1:4', 'dec.0:4', 'dec.1:4'] if rm else ['inc.0:2', 'inc.1:2', 'dec.0:2', 'dec.1:2']
+    return Job(name, SRC, entry, defines=D, unwind=(5 if rm else max(niov, 2) + 2), unwindset=us(cap[0], cap[1], srcmax, niov, extra), shims=SH,
+               ir2c=(IR2C_VIA_MUTABLE if via_mutable else IR2C), clang=CLANG,
                nochecks=True, cbmc=(CHECKS if memchecks else []), timeout=timeout, mem_gb=mem_gb, desc=desc, bounds=b)
+
+
+def hjob(name, next_, vmax, remove=False, timeout=900, mem_gb=8):
+    D = ['NEXT=%d' % next_, 'VMAX=%d' % vmax] + (['WITH_REMOVE'] if remove else [])
+    return Job(name, 'C17/h_hole.cpp', 'harness_rangemodule', defines=D, unwind=next_ + 4, shims=['libc.c', 'rbtree.c'], timeout=timeout, mem_gb=mem_gb,
+               desc='real RangeModule (addRange%s, queryRefillRange) + queryRefillRangeByMap alignment: hit => request covered, miss => refill range covers every uncovered byte' % (', removeRange' if remove else ''),
+               bounds='%d symbolic addRange calls%s, offsets 0..%d, symbolic request and witness byte' % (next_, ' + 1 removeRange' if remove else '', vmax))
 
 
 def jobs(tier):
     q = tier == 'quick'
-    J = []
-    J.append(rjob('read_v1', desc='one read, one segment'))
-    J.append(rjob('read_v2', niov=2, desc='one read, two segments'))
-    J.append(rjob('read_v2_known', niov=2, known=1, desc='one read, two segments'))
-    J.append(rjob('read_v2_unknown', niov=2, known=0, desc='one read, two segments'))
-    J.append(rjob('read_v3_known', niov=3, known=1, desc='one read, 3 segments'))
-    J.append(rjob('read_v1_s12', srcmax=12, desc='one read, one segment, 3 pages'))
-    J.append(rjob('read_v1_faults', faults=1, desc='one read, one segment, faults'))
-    J.append(rjob('prefetch', entry='harness_prefetch', desc='prefetch -> try_refill_range'))
-    J.append(Job('hole_rangemodule', 'C17/h_hole.cpp', 'harness_rangemodule', defines=['NEXT=2'], unwind=6, shims=['libc.c', 'rbtree.c'], timeout=300, mem_gb=6, desc='RangeModule hole query', bounds=''))
+    T = 900 if q else 3000
+    J = [
+        rjob('read_1seg', timeout=T, desc='one read, one segment: count and bytes equal the source, media invariant, pages cached, nothing left locked / allocated'),
+        rjob('read_1seg_3pages', srcmax=12, timeout=T, desc='same, three pages'),
+        rjob('read_1seg_faults', faults=1, timeout=T, desc='one read, one segment, symbolic source / media / query / allocator / fstat faults: -1 or a correct prefix, never wrong bytes'),
+        rjob('read_2seg_short', niov=2, segmax=2, timeout=T, desc='one read, two segments of 0..2 bytes'),
+        rjob('prefetch', entry='harness_prefetch', timeout=T, desc='prefetch -> do_prefetch -> try_refill_range -> do_refill_range without a caller buffer'),
+        rjob('holequery_bitmap', entry='harness_holequery', srcmax=12, timeout=T, desc='hole-query lemma for the harness store (page bitmap)'),
+        hjob('rangemodule_2ext', 2, 31, timeout=T),
+    ]
+    if q: return J
+    J += [
+        rjob('holequery_rangemodule', entry='harness_holequery', srcmax=12, rm=True, timeout=T, mem_gb=10, desc='hole-query lemma for the harness store over the real RangeModule'),
+        rjob('read_2seg', niov=2, timeout=T, desc='one read, two segments of 0..4 bytes'),
+        rjob('read_2seg_3pages', niov=2, srcmax=12, timeout=T, desc='one read, two segments, three pages'),
+        rjob('read_3seg_3pages', niov=3, srcmax=12, timeout=T, mem_gb=12, desc='one read, three segments, three pages'),
+        rjob('read_2seg_faults', niov=2, faults=1, timeout=T, desc='one read, two segments, symbolic faults'),
+        rjob('read_1seg_unit8', srcmax=12, runit=8, timeout=T, desc='refill unit 8 = two pages (refill ranges include cached pages and reach beyond end of file)'),
+        rjob('read_2reads_1seg', nreads=2, timeout=T, mem_gb=12, desc='two reads in sequence: the second sees the media left by the first (fully cached second read returns the same bytes)'),
+        rjob('read_2reads_1seg_faults', nreads=2, faults=1, timeout=T, mem_gb=12, desc='two reads in sequence with faults: a faulted first read leaves the media consistent for the second'),
+        rjob('read_1seg_memchecks', memchecks=True, timeout=T, mem_gb=16, desc='one read, one segment, with CBMC\'s pointer / bounds / overflow checks'),
+        rjob('read_1seg_cap32', cap=(32, 4), timeout=T, mem_gb=16, desc='one read, one segment, IOVector as shipped (capacity 32, 4 reserved in front)'),
+        rjob('read_1seg_via_mutable', via_mutable=True, timeout=T, desc='media read through the real ICacheStore::do_preadv2 (SmartCloneIOV) -> do_preadv2_mutable'),
+        rjob('read_1seg_rangemodule', rm=True, timeout=T, mem_gb=16, desc='one read with the real RangeModule (addRange on media writes, queryRefillRange) behind the store'),
+        rjob('prefetch_3pages_faults', entry='harness_prefetch', srcmax=12, faults=1, timeout=T, desc='prefetch with faults, three pages'),
+        hjob('rangemodule_3ext', 3, 15, timeout=T, mem_gb=16),
+        hjob('rangemodule_2ext_remove', 2, 15, remove=True, timeout=T, mem_gb=16),
+    ]
     return J
